@@ -24,19 +24,26 @@ two columns: a simple graph with dangling edges allowed), every syndrome and eve
   defect lies in exactly one cluster, `_s_parents`/`_q_parents` point at the roots, and the
   run never left the modelled fragment (no negative-index wrap in `find_root`, parent chains
   shorter than the array);
-* `uf_decode_partial`, `uf_solver_contract_partial` — (c, partial) hence
-  `syndrome(correction) = syndrome` whenever the growth loop terminates.
-  GAP (the reason for `_partial`): termination of the growth loop within the fuel `m·n + 1`
-  (item (b)) is NOT proved.  It is false in general: with a column of weight 1 a connected
-  component can carry an odd number of defects and the real `Support.clustering` loops for ever
-  (planar codes; observed and compared on every run).  For matrices whose columns all have
-  weight 2 and syndromes of errors it is only tested (correspondence: the model never reports
-  divergence where the implementation returns).
+* `uf_growth_terminates`     — (b) on a CLOSED graph (`closedGraph`: graph-like and every column
+  of weight 0 or 2, i.e. no dangling edges — the toric lattices with sides ≥ 3) the growth loop
+  terminates within the fuel `m·n + 1` for the syndrome of any error: every odd cluster has a
+  boundary element with a nonzero entry left in `_H_to_grow` (else it would be a union of
+  connected components with an odd number of defects), so every turn zeroes an entry;
+* `uf_decode_total`, `uf_solver_contract`, `unionfind_decoder_reproduces_syndrome` — (c) hence
+  `Support.decode()` returns a binary vector of length `n` with `syndrome(correction) = syndrome`,
+  for every closed graph, every error and every schedule; this DISCHARGES the solver contract
+  `UfValidOn` of `C05.unionfind_correction_reproduces_syndrome` for the model of the internals:
+  the glue theorem holds for `UnionFindDecoder` with no hypothesis on the solver left.
+* `uf_decode_partial`, `uf_solver_contract_partial` — for graph-like matrices WITH dangling
+  edges (columns of weight 1: planar codes) only partial correctness holds: whenever the growth
+  loop terminates the answer is right.  The gap (termination) cannot be closed there: a
+  connected component can carry an odd number of defects and the real `Support.clustering`
+  loops for ever (example below; observed and compared on every run).
 * `uf_fails_on_parallel_edges` — (d) the hypothesis is necessary: on `Hz` of `Toric2DCode(2,2)`
   (every pair of adjacent vertices is joined by two qubits) the model — like the implementation —
   answers the syndrome of an X error on qubit 0 with qubits {0, 2}, whose syndrome is zero.
 -/
-import PanqecVerif.Proofs.UnionFindWF
+import PanqecVerif.Proofs.UnionFindTermD
 import PanqecVerif.Proofs.DecodersGlue
 
 namespace Panqec.C05UF
@@ -79,10 +86,53 @@ theorem uf_clustering_post (H : Mat) (hG : graphLike H = true) (sy : Vec) (sched
       (clustering H sy sched).qPar ∧ (clustering H sy sched).bad = false :=
   clustering_post (graphLike_ok hG).1 sy sched hterm
 
-/-- **(c), partial**: `Support(sy, H).decode()` for every graph-like `H`, every syndrome and
-    every schedule either does not terminate in the growth phase, or returns a binary vector of
-    length `n` whose syndrome is exactly the list of defect flags.  Missing for the full
-    statement: termination of the growth loop (see the file header). -/
+/-- **(b) termination of the growth loop** (`while smallest_cluster` in `Support.clustering`):
+    on a closed graph, for the syndrome of any error `v` and every schedule, the loop stops
+    within `m·n + 1` turns. -/
+theorem uf_growth_terminates (H : Mat) (hC : closedGraph H = true) (v : Vec)
+    (hv : v.length = ncols H) (sched : List (List Int)) :
+    (clustering H (sectorSyndrome H v) sched).terminated = true :=
+  clustering_terminates hC v hv sched
+
+/-- **(c) `Support(sy, H).decode()` is correct on closed graphs**: for every error `v` and every
+    schedule the run terminates in all three phases, raises nothing, never leaves the modelled
+    fragment, and returns a binary vector of length `n` with the syndrome of `v`. -/
+theorem uf_decode_total (H : Mat) (hC : closedGraph H = true) (v : Vec) (hv : v.length = ncols H)
+    (sched : List (List Int)) :
+    ∃ c, (decodeWith H (sectorSyndrome H v) sched).outcome = .ok c ∧ c.length = ncols H ∧
+      (∀ x, x ∈ c → x < 2) ∧ sectorSyndrome H c = sectorSyndrome H v ∧
+      (decodeWith H (sectorSyndrome H v) sched).bad = false :=
+  decodeWith_total hC v hv sched
+
+/-- the contract `UfValidOn` (`Proofs/DecodersGlue.lean`) holds for the model of the internals on
+    every closed graph -/
+theorem uf_solver_contract (H : Mat) (hC : closedGraph H = true) :
+    UfValidOn (ncols H) ufSolve H := by
+  intro sy ⟨v, hv, hsy⟩
+  subst hsy
+  obtain ⟨c, hc, hlen, hbin, hsyn, _⟩ := decodeWith_total hC v hv []
+  unfold ufSolve
+  rw [hc]
+  exact ⟨hlen, hbin, hsyn⟩
+
+/-- **UnionFindDecoder, end to end** (glue of `uf_decoder.py` + internals of `uf_support.py`): for
+    every CSS matrix whose two sector matrices are closed graphs on `n` qubits and every error `e`,
+    `decode(measure_syndrome(e))` returns a binary vector of length `2n` with exactly the
+    measured syndrome — no hypothesis on a solver left. -/
+theorem unionfind_decoder_reproduces_syndrome (H : Mat) (n : Nat) (hcss : isCss H = true)
+    (hz : closedGraph (Hz H) = true) (hx : closedGraph (Hx H) = true)
+    (hnz : ncols (Hz H) = n) (hnx : ncols (Hx H) = n) (e : Vec) (he : e.length = 2 * n) :
+    ∃ c ev, ufDecode ufSolve H n (measureSyndrome H e) = .ok (c, ev) ∧
+      c.length = 2 * n ∧ (∀ x ∈ c, x < 2) ∧ measureSyndrome H c = measureSyndrome H e := by
+  obtain ⟨c, ev, h1, _, h3, h4, h5⟩ := uf_valid ufSolve H n hcss
+    (hnz ▸ uf_solver_contract (Hz H) hz) (hnx ▸ uf_solver_contract (Hx H) hx) e he
+  exact ⟨c, ev, h1, h3, h4, h5⟩
+
+/-- **partial correctness with dangling edges**: `Support(sy, H).decode()` for every graph-like
+    `H` (columns of weight 1 allowed), every syndrome and every schedule either does not
+    terminate in the growth phase, or returns a binary vector of length `n` whose syndrome is
+    exactly the list of defect flags.  Named `_partial` because termination is missing; it
+    cannot be added: see `hzPlanar22` below. -/
 theorem uf_decode_partial (H : Mat) (hG : graphLike H = true) (sy : Vec) (sched : List (List Int)) :
     ((decodeWith H sy sched).outcome = .growthDiverges ∨
       ∃ c, (decodeWith H sy sched).outcome = .ok c ∧ c.length = ncols H ∧ (∀ x, x ∈ c → x < 2) ∧
@@ -140,7 +190,7 @@ def hzToric33 : Mat :=
    [0,0,0,0,0,1,0,0,1,0,0,0,0,0,0,0,1,1]]
 
 /-- the hypothesis holds on the lattices the decoder is allowed for (sides ≥ 3) … -/
-example : graphLike hzToric33 = true := by decide +kernel
+example : closedGraph hzToric33 = true := by decide +kernel
 
 /-- … the growth loop terminates there and the answer has the measured syndrome
     (X errors on qubits 0, 5, 7) -/
@@ -148,6 +198,33 @@ example : sectorSyndrome hzToric33 [1,0,0,0,0,1,0,1,0,0,0,0,0,0,0,0,0,0] = [1,1,
     ∃ c, (decodeWith hzToric33 [1,1,0,1,0,1,0,1,1] []).outcome = .ok c ∧
       sectorSyndrome hzToric33 c = [1,1,0,1,0,1,0,1,1] := by
   refine ⟨by decide +kernel, [0,0,0,0,0,0,0,0,0,1,0,0,0,0,1,0,1,0], by decide +kernel, by decide +kernel⟩
+
+/-- the full stabilizer matrix of `Toric2DCode(3, 3)` (`code.stabilizer_matrix`, 18 × 36) -/
+def toric33 : Mat :=
+  [[0,0,0,0,0,0,0,0,0,0,0,0,0,0,0,0,0,0,1,0,0,0,0,0,1,0,0,1,0,1,0,0,0,0,0,0],
+   [0,0,0,0,0,0,0,0,0,0,0,0,0,0,0,0,0,0,0,1,0,0,0,0,0,1,0,1,1,0,0,0,0,0,0,0],
+   [0,0,0,0,0,0,0,0,0,0,0,0,0,0,0,0,0,0,0,0,1,0,0,0,0,0,1,0,1,1,0,0,0,0,0,0],
+   [0,0,0,0,0,0,0,0,0,0,0,0,0,0,0,0,0,0,1,0,0,1,0,0,0,0,0,0,0,0,1,0,1,0,0,0],
+   [0,0,0,0,0,0,0,0,0,0,0,0,0,0,0,0,0,0,0,1,0,0,1,0,0,0,0,0,0,0,1,1,0,0,0,0],
+   [0,0,0,0,0,0,0,0,0,0,0,0,0,0,0,0,0,0,0,0,1,0,0,1,0,0,0,0,0,0,0,1,1,0,0,0],
+   [0,0,0,0,0,0,0,0,0,0,0,0,0,0,0,0,0,0,0,0,0,1,0,0,1,0,0,0,0,0,0,0,0,1,0,1],
+   [0,0,0,0,0,0,0,0,0,0,0,0,0,0,0,0,0,0,0,0,0,0,1,0,0,1,0,0,0,0,0,0,0,1,1,0],
+   [0,0,0,0,0,0,0,0,0,0,0,0,0,0,0,0,0,0,0,0,0,0,0,1,0,0,1,0,0,0,0,0,0,0,1,1],
+   [1,1,0,0,0,0,0,0,0,1,0,0,1,0,0,0,0,0,0,0,0,0,0,0,0,0,0,0,0,0,0,0,0,0,0,0],
+   [0,1,1,0,0,0,0,0,0,0,1,0,0,1,0,0,0,0,0,0,0,0,0,0,0,0,0,0,0,0,0,0,0,0,0,0],
+   [1,0,1,0,0,0,0,0,0,0,0,1,0,0,1,0,0,0,0,0,0,0,0,0,0,0,0,0,0,0,0,0,0,0,0,0],
+   [0,0,0,1,1,0,0,0,0,0,0,0,1,0,0,1,0,0,0,0,0,0,0,0,0,0,0,0,0,0,0,0,0,0,0,0],
+   [0,0,0,0,1,1,0,0,0,0,0,0,0,1,0,0,1,0,0,0,0,0,0,0,0,0,0,0,0,0,0,0,0,0,0,0],
+   [0,0,0,1,0,1,0,0,0,0,0,0,0,0,1,0,0,1,0,0,0,0,0,0,0,0,0,0,0,0,0,0,0,0,0,0],
+   [0,0,0,0,0,0,1,1,0,1,0,0,0,0,0,1,0,0,0,0,0,0,0,0,0,0,0,0,0,0,0,0,0,0,0,0],
+   [0,0,0,0,0,0,0,1,1,0,1,0,0,0,0,0,1,0,0,0,0,0,0,0,0,0,0,0,0,0,0,0,0,0,0,0],
+   [0,0,0,0,0,0,1,0,1,0,0,1,0,0,0,0,0,1,0,0,0,0,0,0,0,0,0,0,0,0,0,0,0,0,0,0]]
+
+/-- the end-to-end theorem applies to the real code: CSS, both sector matrices closed graphs
+    on 18 qubits -/
+example : isCss toric33 = true ∧ closedGraph (Hz toric33) = true ∧ closedGraph (Hx toric33) = true ∧
+    ncols (Hz toric33) = 18 ∧ ncols (Hx toric33) = 18 := by
+  refine ⟨by decide +kernel, by decide +kernel, by decide +kernel, by decide +kernel, by decide +kernel⟩
 
 /-- `Planar2DCode(2,2).Hz`: graph-like (columns of weight 1 are dangling edges) … -/
 def hzPlanar22 : Mat := [[1,0,1,0,1],[0,1,0,1,1]]
